@@ -39,7 +39,9 @@ def run(prop, tier, replay=None):
         if os.path.exists(os.path.join(vlib.SPEC, "CLHT.tla")) and not replay:
             import clhtmodel
             mc_futs = [ex.submit(clhtmodel.run_mc, work, tag, txt, 6 if quick else 12) for tag, txt in clhtmodel.instances(quick)]
-        if replay:
+        if replay and os.path.basename(replay).startswith(prop + "-iter-"):
+            scen = []
+        elif replay:
             with open(replay) as f:
                 scen = json.load(f)
         else:
@@ -95,6 +97,43 @@ def run(prop, tier, replay=None):
                 sc = part[x["rec"] - 1]
                 path = vlib.save_replay(prop, "table-%s-%d" % (sc["policy"], sc["seed"]), [sc])
                 violations.append((x["pred"], x["detail"], path))
+        # ---- the cache's own iterators (All / Keys / Values through cache.nodes()) while values are being replaced
+        if not replay or os.path.basename(replay).startswith(prop + "-iter-"):
+            obin = vlib.build_test_binary(work, "otter")
+            if replay:
+                with open(replay) as f:
+                    iscen = json.load(f)
+            else:
+                ni = 24 if quick else 240
+                iscen = [{"stable": 8 + 8 * (j % 4), "churn": [0, 20, 60][j % 3], "writers": 2 + j % 3, "iters": 150 if quick else 400, "bounded": (j // 2) % 2,
+                          "expiry": (j // 4) % 2, "kind": ["all", "keys", "values"][j % 3], "seed": seed * 100000 + 80000 + j} for j in range(ni)]
+            ish = [iscen[i::4] for i in range(4)]
+
+            def iter_one(i, part):
+                inp = os.path.join(work, "it_in_%d.json" % i)
+                outp = os.path.join(work, "it_out_%d.ndjson" % i)
+                devp = os.path.join(work, "it_dev_%d.json" % i)
+                with open(inp, "w") as f:
+                    json.dump(part, f)
+                rc, out = vlib.run_test_binary(obin, "TestVerifIter", {"VERIF_IN": inp, "VERIF_OUT": outp}, timeout=1500)
+                if rc != 0:
+                    raise vlib.Broken("iterator driver failed:\n" + out[-3000:])
+                r = vlib.run_tlc(work, "IterHist", os.path.join(vlib.SPEC, "IterHist.cfg"), workers=1, timeout=900, heap="3g",
+                                 env_extra={"VERIF_TRACE": outp, "VERIF_DEVOUT": devp})
+                if not vlib.tlc_ok(r) or not os.path.exists(devp):
+                    raise vlib.Broken("IterHist did not complete:\n" + r["out"][-2500:])
+                with open(devp) as f:
+                    return part, json.load(f)
+            with cf.ThreadPoolExecutor(max_workers=4) as ex2:
+                for fu in [ex2.submit(iter_one, i, p) for i, p in enumerate(ish) if p]:
+                    part, d = fu.result()
+                    cov["cache_iterations"] = cov.get("cache_iterations", 0) + sum(sc["iters"] for sc in part)
+                    cov["traces_validated_against_impl"] += d["n"]
+                    for x in d["devs"]:
+                        cov["predicates_failed"][x["pred"]] = cov["predicates_failed"].get(x["pred"], 0) + 1
+                        sc = part[x["rec"] - 1]
+                        path = vlib.save_replay(prop, "iter-%s-%d" % (sc["kind"], sc["seed"]), [sc])
+                        violations.append((x["pred"], x["detail"], path))
         for fu in mc_futs:
             r = fu.result()
             cov["mc"].append({"instance": r["tag"], "distinct": r["distinct"], "generated": r["generated"], "wall_s": round(r["wall"], 1)})
